@@ -37,6 +37,10 @@ struct Stats {
     pruning_ran: bool,
     unpruned_states: u64,
     boundaries_missing_below_horizon: u64,
+    /// per pool: the highest height below which the pool's ordinary checkpoints may have been pruned, i.e. the
+    /// maximum, over all states observed so far (the trees are read after every operation, and an operation
+    /// either only adds or only removes checkpoints), of the id of the pool's 100th-highest checkpoint
+    pruned_floor: [u32; 3],
 }
 
 type TreeErr = ShardTreeError<zcash_client_sqlite::wallet::commitment_tree::Error>;
@@ -204,12 +208,23 @@ fn check_trees(ctx: &Ctx, h: &mut Hist, st: &mut Stats, step: &str, full: bool) 
     // (c) alignment
     let ks = |v: &PoolView| v.cps.keys().copied().collect::<BTreeSet<u32>>();
     let (a, b, c) = (ks(&sap), ks(&orc), ks(&iw));
-    // Pruning horizon: the lowest height from which every pool still has its ordinary (prunable)
-    // checkpoints. Checkpoints on the retention grid are exempt from pruning, so they do not define it.
+    // Pruning horizon. ShardTree keeps a budget of 100 checkpoints per pool and prunes the oldest ones while
+    // leaves are inserted, so whatever lies below a pool's 100th-highest checkpoint (now or in any earlier
+    // observed state) may be gone from that pool; a pool that receives no leaves never prunes (known finding),
+    // and a later historic scan may re-insert a frontier checkpoint BELOW what was pruned, so the lowest
+    // checkpoint present does not tell where pruning stopped. Alignment is asserted at and above the highest
+    // such floor of any pool (and, as before, above the lowest ordinary checkpoint every pool still has).
     let act = h.world.nu6_3_height();
     let interval = h.world.spec.retention_interval.unwrap_or(144);
     let on_grid = |id: u32| act.map_or(false, |a| id >= a && id % interval == 0);
-    let horizon = [&a, &b, &c].iter().filter_map(|s| s.iter().copied().find(|id| !on_grid(*id))).max().unwrap_or(0);
+    for (p, set) in [&a, &b, &c].iter().enumerate() {
+        if set.len() >= 100 {
+            let hundredth = *set.iter().rev().nth(99).unwrap();
+            st.pruned_floor[p] = st.pruned_floor[p].max(hundredth);
+        }
+    }
+    let lowest_common = [&a, &b, &c].iter().filter_map(|s| s.iter().copied().find(|id| !on_grid(*id))).max().unwrap_or(0);
+    let horizon = lowest_common.max(*st.pruned_floor.iter().max().unwrap());
     let above = |s: &BTreeSet<u32>| s.iter().copied().filter(|h| *h >= horizon).collect::<BTreeSet<u32>>();
     if !(a == b && b == c) && above(&a) == above(&b) && above(&b) == above(&c) {
         // Known finding: a pool whose tree receives no leaves never runs checkpoint pruning (its
@@ -228,7 +243,13 @@ fn check_trees(ctx: &Ctx, h: &mut Hist, st: &mut Stats, step: &str, full: bool) 
     } else if !(a == b && b == c) {
         vfail!(
             "checkpoints-not-aligned",
-            "{step}: pools are checkpointed at different heights: sapling-only {:?}, orchard-only {:?}, ironwood-only {:?}",
+            "{step}: pools are checkpointed at different heights (horizon {horizon}; sapling {} from {:?}, orchard {} from {:?}, ironwood {} from {:?}): sapling-only {:?}, orchard-only {:?}, ironwood-only {:?}",
+            a.len(),
+            a.iter().take(4).collect::<Vec<_>>(),
+            b.len(),
+            b.iter().take(4).collect::<Vec<_>>(),
+            c.len(),
+            c.iter().take(4).collect::<Vec<_>>(),
             a.difference(&b).chain(a.difference(&c)).take(6).collect::<Vec<_>>(),
             b.difference(&a).chain(b.difference(&c)).take(6).collect::<Vec<_>>(),
             c.difference(&a).chain(c.difference(&b)).take(6).collect::<Vec<_>>()
@@ -249,7 +270,7 @@ fn check_trees(ctx: &Ctx, h: &mut Hist, st: &mut Stats, step: &str, full: bool) 
                     // budget of newer checkpoints, only gets a checkpoint if its block has a commitment in
                     // that pool; the "ensured" checkpoint is dropped by update_tree's
                     // `height > min_checkpoint_height` guard.
-                    let pool_horizon = v.cps.keys().copied().find(|id| !on_grid(*id));
+                    let pool_horizon = v.cps.keys().copied().find(|id| !on_grid(*id)).map(|lo| lo.max(st.pruned_floor[pool as usize]));
                     if !v.cps.contains_key(&blk.height) && v.cps.len() >= 100 && pool_horizon.map_or(false, |hz| blk.height < hz) {
                         if ctx.known_hit("retention-boundary-missing-below-pruning-horizon") {
                             st.boundaries_missing_below_horizon += 1;
@@ -296,10 +317,18 @@ fn run_case_opt(ctx: &Ctx, case: &Case, exclude_known: bool) -> CaseResult {
             Err(f) if f.signature == SIG_TREE_CONFLICT && h.tainted_stale_annotation && exclude_known => {
                 return Ok(Obs::trivial().label("excluded-known:stale-annotation-after-reorg"));
             }
+            Err(f) if f.signature == SIG_STALE_SUBTREE_ROOT && exclude_known => {
+                return Ok(Obs::trivial().label("excluded-known:stale-subtree-root-after-reorg"));
+            }
             r => r?,
         }
         if h.tainted_stale_annotation && exclude_known {
             return Ok(Obs::trivial().label("excluded-known:stale-annotation-after-reorg").label_if(h.flags.truncations > 0, "rewind"));
+        }
+        if h.tainted_stale_subtree_root && exclude_known {
+            // the exact trigger of the second known finding: a reorganising rewind orphaned the block that completed
+            // a subtree whose root the wallet had already been given
+            return Ok(Obs::trivial().label("excluded-known:stale-subtree-root-after-reorg").label("rewind"));
         }
         check_trees(ctx, &mut h, &mut st, &step, i % 5 == 4)?;
     }
@@ -313,6 +342,9 @@ fn run_case_opt(ctx: &Ctx, case: &Case, exclude_known: bool) -> CaseResult {
     let nontrivial = wallet_notes > 0 && (st.empty_boundary_blocks > 0 || st.pruning_ran || (f.truncations > 0 && f.scans > 1) || f.out_of_order);
     Ok(Obs::new(nontrivial)
         .label_if(wallet_notes > 0, "has-wallet-notes")
+        .label_if(h.chain.base_sizes != [0, 0, 0], "non-empty-birthday-frontier")
+        .label_if(h.chain.crossed_shard_boundary(), "shard-boundary-crossed")
+        .label_if(h.flags.subtree_roots_put > 0, "subtree-roots-put")
         .label_if(f.out_of_order, "out-of-order")
         .label_if(f.truncations > 0, "rewind")
         .label_if(st.empty_boundary_blocks > 0, "empty-boundary-block")
@@ -335,7 +367,7 @@ fn run_case_opt(ctx: &Ctx, case: &Case, exclude_known: bool) -> CaseResult {
 fn known_stale_annotation_case() -> Case {
     let recv = |v: u64| BlockSpec { txs: vec![TxSpec { items: vec![ItemSpec::Recv { pool: Pool::Sapling, who: Who::Wallet(0), scope: ScopeSel::External, value: v }] }] };
     Case {
-        world: WorldSpec { seed: [7; 32], n_accounts: 1, n_foreign: 0, nu6_3_offset: None, retention_interval: None },
+        world: WorldSpec { seed: [7; 32], n_accounts: 1, n_foreign: 0, nu6_3_offset: None, retention_interval: None, base: None },
         long: false,
         ops: vec![
             Op::AddBlocks(vec![recv(10_000), recv(20_000), recv(30_000), recv(40_000)]),
@@ -343,6 +375,27 @@ fn known_stale_annotation_case() -> Case {
             Op::ScanGap { which: 0, from_end: false, chunk: 5 },
             Op::Truncate { depth: 3, reorg: true },
             Op::AddBlocks(vec![recv(50_000), recv(60_000)]),
+        ],
+        final_chunk: 10,
+    }
+}
+
+/// The recorded history of the known stale-subtree-root finding: the Sapling tree is one leaf short of completing
+/// shard 0; a block completes it, the wallet is given the subtree root (documented sync-round start), a reorg replaces
+/// that block by one with a different output, and the next sync round hands over the new root of shard 0.
+fn known_stale_subtree_root_case() -> Case {
+    let recv = |v: u64| BlockSpec { txs: vec![TxSpec { items: vec![ItemSpec::Recv { pool: Pool::Sapling, who: Who::Wallet(0), scope: ScopeSel::External, value: v }] }] };
+    Case {
+        world: WorldSpec { seed: [8; 32], n_accounts: 1, n_foreign: 0, nu6_3_offset: None, retention_interval: None, base: Some(BaseSpec { gap: 3, sizes: [65535, 0, 0] }) },
+        long: false,
+        ops: vec![
+            Op::AddEmpty(2),
+            Op::AddBlocks(vec![recv(10_000)]),
+            Op::PutSubtreeRoots { pool: 0 },
+            Op::Scan { sel: 0, len: 2 },
+            Op::Truncate { depth: 0, reorg: true },
+            Op::AddBlocks(vec![recv(20_000), recv(30_000)]),
+            Op::UpdateTip { behind: 0 },
         ],
         final_chunk: 10,
     }
@@ -378,6 +431,19 @@ fn main() {
                 r => r,
             },
             |_| format!("{:?}", known_stale_annotation_case()),
+        );
+    }
+    {
+        let ctx2 = ctx.clone();
+        ctx.run_enum(
+            "regression-known-stale-subtree-root",
+            1,
+            false,
+            move |_| match run_case_opt(&ctx2, &known_stale_subtree_root_case(), false) {
+                Err(f) if f.signature == SIG_STALE_SUBTREE_ROOT || f.signature == "root-mismatch" || f.signature == "witness-mismatch" => Err(Fail::new(SIG_STALE_SUBTREE_ROOT, f.msg)),
+                r => r,
+            },
+            |_| format!("{:?}", known_stale_subtree_root_case()),
         );
     }
     ctx.run_prop_with("histories", || arb_case(22, 12), tier.pick(256, 15_000), 50, |c| run_case(&ctx, c));
